@@ -191,7 +191,7 @@ def cc_case(draw, tier="quick"):
     what = draw(st.sampled_from(["secant_secant", "secant_secant", "tangent_secant", "tangent_tangent", "fourfold", "fourfold_exact", "circles", "with_degenerate"]))
     idx = list(draw(st.permutations(range(6)))[:4])
     return {"what": what, "n": draw(Z.params(9)), "idx": idx, "r": [draw(st.integers(-3, 3)), draw(st.sampled_from([1, 2, 3]))], "s": [draw(C.scale()), draw(C.scale())],
-            "c": [draw(C.ints(5)) for _ in range(6)], "swap": draw(st.booleans())}
+            "c": [draw(C.ints(5)) for _ in range(6)], "swap": draw(st.booleans()), "n3": draw(st.one_of(st.none(), Z.params(9)))}
 
 
 def on_conic(M, p):
@@ -304,6 +304,24 @@ def run_cc(c):
     tol = TOL_KNOWN.get(what, TOL_KNOWN[False])
     for k in known:
         ck.check(any(C.peq_all(g, k, 1, tol) for g in got), site + ":common-point-missing", (k.tolist(), [g.tolist() for g in got]))
+    if c.get("n3") is not None and what != "with_degenerate":
+        # the same two conic objects are used again, each with a third, unrelated conic: the answers must be the common points
+        # of the conics as they were constructed
+        S3, _ = quadric_matrix(c["n3"], [1, 1, -1], 3)
+        M3 = pow2_normalise(np.array([[float(v) for v in row] for row in S3]))
+        # the third conic must not belong to the pencil of the first two (otherwise there are infinitely many or the same common points)
+        indep = np.linalg.matrix_rank(np.stack([(M / np.max(np.abs(M))).ravel() for M in (MA, MB, M3)]), tol=1e-6) == 3
+        if indep and abs(np.linalg.det(M3 / np.max(np.abs(M3)))) >= 1e-3:
+            C3 = Conic(M3)
+            for name, obj, M, first in (("second-operand", B, MB, False), ("first-operand", A, MA, True)):
+                r3, f = call(site + ":reuse-" + name, (obj.intersect if first else C3.intersect), (C3 if first else obj))
+                if f:
+                    ck.add(f)
+                    continue
+                for p in r3:
+                    g = np.asarray(p.array)
+                    if not ck.check(on_conic(M, g) < 1e-4 and on_conic(M3, g) < 1e-4, site + ":reuse-" + name + ":point-on-both-as-constructed", (g.tolist(), on_conic(M, g), on_conic(M3, g))):
+                        break
     if STATS is not None:
         kn = C.pnorm(np.array(known))
         gn = [C.pnorm(g) for g in got]
@@ -330,7 +348,7 @@ LAWS = [
         {"quick": 2000, "thorough": 40000}, "generated line/plane pairs, all sign patterns, parallel / at infinity / zeros, collections", shard=300),
     Law("not_reducible", lambda tier: nondeg_case(tier), run_nondeg, lambda c: True, lambda c: [c["what"], f"d{c['d']}"], {"quick": 800, "thorough": 15000},
         "non-degenerate quadrics are not degenerate; rank >= 3 quadrics of 3-space raise NotReducible", shard=300),
-    Law("conic_conic", lambda tier: cc_case(tier), run_cc, lambda c: c["what"] in ("tangent_secant", "tangent_tangent", "fourfold", "fourfold_exact"), lambda c: [c["what"]],
+    Law("conic_conic", lambda tier: cc_case(tier), run_cc, lambda c: c["what"] in ("tangent_secant", "tangent_tangent", "fourfold", "fourfold_exact"), lambda c: [c["what"]] + (["operands-reused-with-a-third-conic"] if c.get("n3") is not None and c["what"] != "with_degenerate" else []),
         {"quick": 1500, "thorough": 30000}, "conic.intersect(conic): <= 4 points on both conics, all exactly known common points present (incl. repeated roots)", shard=200,
         mandatory=("fourfold", "fourfold_exact", "tangent_secant", "circles")),
 ]
